@@ -38,6 +38,7 @@ def assemble(which, repo_dir, features=()):
     ov = Overlay(os.path.join(common.VERIF, c['overlay']))
     a = Assembler(os.path.join(repo_dir, c['dir']), ov, features)
     text = a.assemble(CRATE_ATTRS)
+    a.manifest['degraded'] = a.degraded
     return text, a.manifest, a.errors, ov
 
 
